@@ -231,38 +231,14 @@ def run(ctx):
         K + "io::writer::builder::Builder::build_from_writer": "constructor (0)",
     }, "record counter written only by flush()")
 
-    # the amount added is the length of the very collection that was handed to write_container (sync and async flush)
-    is_len = R.mk_pred(r"Vec::<T, A>::len$")
-    nfl = 0
-    for key in (K + "io::writer::Writer::<W>::flush", K + "r#async::io::writer::Writer::<W>::flush"):
-        f = ctx.body("C07.R5", key)
-        if f is None:
-            continue
-        nfl += 1
-        bd = a10.Body(fb, f)
-        wc = [c for b, c in f.calls() if re.search(r"writer::container::write_container$", c.get("f") or "") and len(c["args"]) >= 5]
-        adds = [st for blk in f.blocks if not blk.get("cu") for st in blk["s"]
-                if st[0] == "=" and st[2][0] == "bin" and st[2][1].startswith("Add")
-                and any(n == "record_counter" for n, _o in C.place_fields(C.op_place(st[2][2]) or [0, []]))]
-        lens = [c for b, c in f.calls() if is_len(c.get("f") or "") and any(R.derives_from_local(f, a[2][3], c["dest"][0], through_calls=True) for a in adds)]
-        if not wc or not adds or not lens:
-            ctx.violation("C07.R5", "C07.R5/ANCHOR-MISSING/%s/shape" % key,
-                          "%s: write_container call (%d), record_counter += (%d) or the len() feeding it (%d) not found" % (key, len(wc), len(adds), len(lens)), f.loc())
-            continue
-        written = bd.pointee(wc[0]["args"][-1])
-        counted = {bd.pointee(c["args"][0]) for c in lens}
-        if counted == {written}:
-            ctx.ok("C07.R5", key + " :: record_counter += len of the collection handed to write_container", a10.fmt_ident(f, written), f.loc())
-        else:
-            ctx.violation("C07.R5", "C07.R5/counter-from-other-collection/" + key,
-                          "%s advances record_counter by the length of %s while write_container was handed %s: the counter of every later "
-                          "container and slice is wrong (read names generated from it collide)" % (
-                              key, sorted(a10.fmt_ident(f, x) for x in counted if x), a10.fmt_ident(f, written) if written else "?"), f.loc())
-    ctx.floor("C07.R5", "CRAM writer flush() bodies (sync + async)", nfl, 2)
+    counter_collection_rule(ctx, "C07.R5", (K + "io::writer::Writer::<W>::flush", K + "r#async::io::writer::Writer::<W>::flush"), 2)
 
     ctx.rule("C07.R9", "written-iff-present: the quality-score-array flag is set only depending on the record having quality scores "
                        "(the reader takes read_length bytes from the QS series whenever the flag is set)")
     _qs_flag_rule(ctx)
+
+    ctx.rule("C07.R10", "declared raw sizes: a writer Block's uncompressed_size derives from the length of the codec's input, never of its output")
+    _raw_size_rule(ctx)
 
     ctx.rule("C07.R7", "A7 span of a template: the reader recomputes TLEN of in-slice mates from min(start of both segments) and max(END of both "
                        "segments) — each alignment_end() result feeds the maximum")
@@ -279,6 +255,79 @@ def run(ctx):
                           "calculate_template_length_chunk no longer takes the template end as the maximum of BOTH segments' alignment ends "
                           "(alignment_end calls: %d, max() fed by both: %d, min(): %d): when the upstream read extends past its mate's end, |TLEN| "
                           "comes back too small on both mates" % (len(ends), len(fed), len(mins)), ft.loc())
+
+
+def counter_collection_rule(ctx, rule, keys, floor):
+    """the amount added to record_counter is the length of the very collection that was handed to write_container"""
+    fb = ctx.fb
+    is_len = R.mk_pred(r"Vec::<T, A>::len$")
+    nfl = 0
+    for key in keys:
+        f = ctx.body(rule, key)
+        if f is None:
+            continue
+        nfl += 1
+        bd = a10.Body(fb, f)
+        wc = [c for b, c in f.calls() if re.search(r"writer::container::write_container$", c.get("f") or "") and len(c["args"]) >= 5]
+        adds = [st for blk in f.blocks if not blk.get("cu") for st in blk["s"]
+                if st[0] == "=" and st[2][0] == "bin" and st[2][1].startswith("Add")
+                and any(n == "record_counter" for n, _o in C.place_fields(C.op_place(st[2][2]) or [0, []]))]
+        lens = [c for b, c in f.calls() if is_len(c.get("f") or "") and any(R.derives_from_local(f, a[2][3], c["dest"][0], through_calls=True) for a in adds)]
+        if not wc or not adds or not lens:
+            ctx.violation(rule, rule + "/ANCHOR-MISSING/%s/shape" % key,
+                          "%s: write_container call (%d), record_counter += (%d) or the len() feeding it (%d) not found" % (key, len(wc), len(adds), len(lens)), f.loc())
+            continue
+        written = bd.pointee(wc[0]["args"][-1])
+        counted = {bd.pointee(c["args"][0]) for c in lens}
+        if counted == {written}:
+            ctx.ok(rule, key + " :: record_counter += len of the collection handed to write_container", a10.fmt_ident(f, written), f.loc())
+        else:
+            ctx.violation(rule, rule + "/counter-from-other-collection/" + key,
+                          "%s advances record_counter by the length of %s while write_container was handed %s: the counter of every later "
+                          "container and slice is wrong (read names generated from it collide)" % (
+                              key, sorted(a10.fmt_ident(f, x) for x in counted if x), a10.fmt_ident(f, written) if written else "?"), f.loc())
+    ctx.floor(rule, "CRAM writer flush() bodies", nfl, floor)
+
+
+def _raw_size_rule(ctx):
+    """declared raw sizes: the `uncompressed_size` a writer Block is built with is the length of the block's INPUT — it derives from
+    a len() of the data handed to the codec, never from the codec's output (defect F35: the fqzcomp arm declared data.len())."""
+    fb = ctx.fb
+    akey = K + "io::writer::container::block::Block"
+    adt = fb.adts.get(akey)
+    if adt is None:
+        ctx.violation("C07.R10", "C07.R10/ANCHOR-MISSING/" + akey, "writer Block type not found")
+        return
+    fields = adt["variants"][0]["fields"]
+    iu = next((i for i, fl in enumerate(fields) if fl["name"] == "uncompressed_size"), None)
+    isrc = next((i for i, fl in enumerate(fields) if fl["name"] == "src"), None)
+    n = 0
+    for k, f in sorted(fb.fns.items()):
+        if not f.blocks or not k.startswith(K + "io::writer"):
+            continue
+        for bi, blk in enumerate(f.blocks):
+            if blk.get("cu"):
+                continue
+            for st in blk["s"]:
+                if not (st[0] == "=" and st[2][0] == "agg" and st[2][1] == "adt" and st[2][2] == akey):
+                    continue
+                n += 1
+                ctx.saw_fn(f)
+                ops = st[2][4]
+                size_op, data_op = ops[iu], ops[isrc]
+                # the codec output: whatever the block's `src` payload derives from through a call into codecs::
+                is_codec = lambda s_: "::codecs::" in s_ and s_.split("::")[-1] == "encode"
+                from_output = R.derives_from_call(f, size_op, is_codec)
+                from_len = R.derives_from_call(f, size_op, lambda s_: s_.endswith("::len"))
+                if from_output:
+                    ctx.violation("C07.R10", "C07.R10/raw-size-from-codec-output/" + k,
+                                  "%s builds a Block whose uncompressed_size derives from the codec's OUTPUT: the block declares its "
+                                  "compressed length as raw size" % k, f.loc(bi))
+                elif from_len:
+                    ctx.ok("C07.R10", k + " :: Block.uncompressed_size", "derives from a len() that is not downstream of a codec encode call", f.loc(bi))
+                else:
+                    ctx.violation("C07.R10", "C07.R10/raw-size-not-a-length/" + k, "%s: uncompressed_size of a Block does not derive from a len()" % k, f.loc(bi))
+    ctx.floor("C07.R10", "writer Block constructions", n, 2)
 
 
 def _qs_flag_rule(ctx):
